@@ -5,6 +5,7 @@ NS = "Hw.Props.C20."
 THEOREMS = [NS + t for t in """C20_calc_fold C20_calc_fold_nodeset C20_calc_ignored_is_identity C20_calc_N_eq_len_I
 C20_calc_single C20_calc_largest_roundtrip C20_calc_rejects C20_calc_rejects_bad_level C20_calc_bad_number_of
 C20_calc_rejected_range_ignored C20_calc_range_loop_bound
+C20_calc_stdin_line_fresh C20_calc_stdin_lines_independent C20_calc_stdin_line_eq_cmdline
 C20_distrib_prints_n C20_distrib_rejects C20_distrib_invalid_number""".split()]
 CHECK_MODULES = ["Hw.Props.C20"]
 TRUSTED = ["the C03/C04/C09/C11 models the calc model is built from (bitmap operators, the three set printers/parsers, covering / "
@@ -20,7 +21,8 @@ ASSUMPTIONS = ["the tool is always given `-i <synthetic|xml>` (plus optionally -
                "corpus cases (reversed ranges, non-positive widths, open ranges beyond the level width, invalid -N/-I/-H types, "
                "unnamed objects under os=/misc=, non-numeric hwloc-distrib numbers)",
                "model answers `skip` (exit class and stdout not compared, crashes still are) for: cpukind/memorytier pseudo-levels, "
-               "--local-memory*, --best-memattr, --default-nodes, --help/--version, numbers with white space or signs where libc "
+               "--local-memory*, --best-memattr, --default-nodes (in stdin mode these are still checked on the real tool by the SL runs: "
+               "every output line equals the command-line run of that input line), --help/--version, numbers with white space or signs where libc "
                "accepts them, list-format indexes >= 2^21, loops of more than 4096 iterations, --no-smt on an infinite set",
                "C20_calc_largest_roundtrip is stated under Tree d (derived from WF d and the DFS numbering in Hw/Topo/WFTree.lean) for "
                "finite sets inside the root cpuset; that the printed Type:index names parse back to the same objects is the C11 "
@@ -28,7 +30,7 @@ ASSUMPTIONS = ["the tool is always given `-i <synthetic|xml>` (plus optionally -
 MODELLED = ("modelled: hwloc-calc.h 47-803 (append modes, level and range parsers, object ranges incl. nesting and wrap-around, "
             "special levels by index, os=/misc= names, pci=busid, bracket filters [tier=] [subtype=] [vendor:device], raw sets in three "
             "formats with the format guess, all/root), hwloc-calc.c "
-            "main option loop, stdin mode and hwloc_calc_output (--no-smt, --single, --largest, -N, -I, -H, four output formats), "
+            "main option loop, stdin mode (lineFold / lineOut / stdinLoop: both accumulators reset before every line) and hwloc_calc_output (--no-smt, --single, --largest, -N, -I, -H, four output formats), "
             "hwloc-distrib.c option loop and output; exercised but not modelled: hwloc_utils_lookup_input_option / "
             "enable_input_format, lstopo.c option parsing and its xml/synthetic back ends, hwloc-diff.c, hwloc-patch.c "
             "(compared with the library by the harness), the graphical/text lstopo back ends (out of the property)")
